@@ -27,7 +27,7 @@ Definition vparams_with (st : hg) (sees : Z -> option bool) : vparams :=
        (fun j y w => match get_peerset st (j - 1) with
                      | Some pps => strongly_see st y w pps
                      | None => None end)
-       (fun j => match get_peerset st j with Some ps => Some (super_majority ps) | None => None end)
+       (fun j => match get_peerset st (j - 1) with Some ps => Some (super_majority ps) | None => None end)
        (coin_of st).
 
 Lemma vparams_of_with st x : vparams_of st x = vparams_with st (fun y => see st y x).
@@ -101,7 +101,7 @@ Section View.
     - intros j Hj. rewrite view_witnesses_wits. split; [apply (wits_nodup g st G)|apply wits_length].
     - intros j j' y Hj Hj'. rewrite !view_witnesses_wits. intros H1 H2.
       apply (wits_spec g st G) in H1. apply (wits_spec g st G) in H2. destruct H1 as [H1 _], H2 as [H2 _]. congruence.
-    - intros j Hj. unfold vparams_with. cbn [vp_sm]. rewrite (get_peerset_static g st j S). reflexivity.
+    - intros j Hj. unfold vparams_with. cbn [vp_sm]. rewrite (get_peerset_static g st (j - 1) S). reflexivity.
     - intros j Hj. unfold vparams_with. cbn [vp_prev]. rewrite view_witnesses_wits.
       assert (Hg : get_round st (j - 1) <> None) by (apply R; lia).
       destruct (get_round st (j - 1)) as [ri|] eqn:E; [|contradiction].
